@@ -1,6 +1,6 @@
 import Splipy.Lemmas.C12Stages
-import Splipy.Lemmas.C05Geometry
 import Mathlib.Tactic.NormNum
+import Mathlib.Data.Rat.Floor
 import Mathlib.Tactic.IntervalCases
 
 /-!
@@ -11,12 +11,16 @@ namespace Splipy
 
 namespace C12
 
-/-- Decidable equality of concrete tensors / objects (used only by kernel-evaluated examples). -/
+/-- Decidable equality of concrete bases / tensors / objects (used only by kernel-evaluated examples). -/
+@[instance_reducible] def basisDecEq : DecidableEq (Basis ℚ) := fun a b =>
+  decidable_of_iff (a.order = b.order ∧ a.knots = b.knots ∧ a.periodic = b.periodic)
+    ⟨fun ⟨h1, h2, h3⟩ => by cases a; cases b; simp_all, fun h => by subst h; exact ⟨rfl, rfl, rfl⟩⟩
+
 @[instance_reducible] def tensorDecEq : DecidableEq (Tensor ℚ) := fun a b =>
   decidable_of_iff (a.shape = b.shape ∧ a.data = b.data)
     ⟨fun ⟨h1, h2⟩ => by cases a; cases b; simp_all, fun h => by subst h; exact ⟨rfl, rfl⟩⟩
 
-attribute [local instance] c05BasisDecEq tensorDecEq
+attribute [local instance] basisDecEq tensorDecEq
 
 @[instance_reducible] def objDecEq : DecidableEq (Obj ℚ) := fun a b =>
   decidable_of_iff (a.bases = b.bases ∧ a.cps = b.cps ∧ a.rational = b.rational)
@@ -106,6 +110,64 @@ def exQ : Obj ℚ :=
 def exL : Obj ℚ :=
   { bases := #[⟨3, #[1, 1, 1, 2, 3, 3, 3], -1⟩],
     cps := ⟨[4, 4], #[0, 0, 1, 1, 1, 2, 0, 2, 2, 1, 3, 1, 0, 1, 1, 1]⟩, rational := true }
+
+/-- `exQ`, `exL` after the `reparam` stage. -/
+def exQa : Obj ℚ :=
+  { bases := #[⟨3, #[0, 0, 0, 1/3, 2/3, 2/3, 1, 1, 1], -1⟩],
+    cps := ⟨[6, 2], #[0, 0, 1, 2, 2, 1, 3, 0, 4, 1, 5, 5]⟩, rational := false }
+def exLa : Obj ℚ :=
+  { bases := #[⟨3, #[0, 0, 0, 1/2, 1, 1, 1], -1⟩],
+    cps := ⟨[4, 4], #[0, 0, 1, 1, 1, 2, 0, 2, 2, 1, 3, 1, 0, 1, 1, 1]⟩, rational := true }
+
+theorem exQ_basis_valid : (exQ.basis 0).Valid where
+  order_pos := by decide
+  size_ge := by decide
+  sorted := by
+    intro i hi
+    have hi' : i + 1 < 9 := hi
+    have hi'' : i < 8 := by omega
+    interval_cases i <;> norm_num [Basis.kn, exQ, Obj.basis]
+  periodic_ge := by decide
+  periodic_le := by decide
+  start_lt_stop := by norm_num [Basis.start, Basis.stop, Basis.kn, exQ, Obj.basis]
+  ghosts := fun h => absurd h (by decide)
+
+theorem exL_basis_valid : (exL.basis 0).Valid where
+  order_pos := by decide
+  size_ge := by decide
+  sorted := by
+    intro i hi
+    have hi' : i + 1 < 7 := hi
+    have hi'' : i < 6 := by omega
+    interval_cases i <;> norm_num [Basis.kn, exL, Obj.basis]
+  periodic_ge := by decide
+  periodic_le := by decide
+  start_lt_stop := by norm_num [Basis.start, Basis.stop, Basis.kn, exL, Obj.basis]
+  ghosts := fun h => absurd h (by decide)
+
+theorem exQ_wf : C06.WF exQ 1 where
+  size := rfl
+  valid := by
+    intro d
+    match d with
+    | ⟨0, _⟩ => exact exQ_basis_valid
+  shape := by decide
+
+theorem exL_wf : C06.WF exL 1 where
+  size := rfl
+  valid := by
+    intro d
+    match d with
+    | ⟨0, _⟩ => exact exL_basis_valid
+  shape := by decide
+
+/-- The `reparam` stage of `(exQ, exL)` and the common-entry form of the resulting bases:
+    interior entries `1/3` (1, absent), `1/2` (absent, 1), `2/3` (2, absent). -/
+theorem exQL_reparam :
+    Obj.stageReparam (exQ, exL) 0 = .ok (exQa, exLa)
+    ∧ exQa.basis 0 = openBasis 3 (clampedU 0 1 [1/3, 1/2, 2/3]) (clampedM 3 [1, 0, 2])
+    ∧ exLa.basis 0 = openBasis 3 (clampedU 0 1 [1/3, 1/2, 2/3]) (clampedM 3 [0, 1, 0]) := by
+  refine ⟨?_, ?_, ?_⟩ <;> decide +kernel
 
 end C12
 
